@@ -228,7 +228,7 @@ theorem mem_eraseF {fl : List (Nat × HFlags)} {id : Nat} {e : Nat × HFlags} (h
       · exact h ▸ List.mem_cons_self
       · exact List.mem_cons_of_mem _ (ih h)
 
-theorem remove_inv {c : Core} {id : Nat} (hc : ∀ f, c.get id = some f → f.closing = true) (hi : c.Inv) :
+theorem remove_inv {c : Core} {id : Nat} (hc : ∀ f, c.get id = some f → f.ref = false) (hi : c.Inv) :
     (c.remove id).Inv := by
   unfold Core.remove
   cases hg : c.get id with
@@ -261,7 +261,7 @@ inductive CStep : Core → Core → Prop
   | setInternal (c id) : CStep c (c.apply id setInternal)
   | start (c id) (h : ∀ f, c.get id = some f → f.closing = false) : CStep c (c.apply id handleStart)
   | close (c id) (h : ∀ f, c.get id = some f → f.closing = false) : CStep c (c.apply id closeK)
-  | remove (c id) (h : ∀ f, c.get id = some f → f.closing = true) : CStep c (c.remove id)
+  | remove (c id) (h : ∀ f, c.get id = some f → f.ref = false) : CStep c (c.remove id)
   | trans {a b c} : CStep a b → CStep b c → CStep a c
 
 theorem CStep.inv {c c' : Core} (h : CStep c c') : c.Inv → c'.Inv := by
